@@ -81,7 +81,9 @@ def build_harness(race=False):
         cmd.append("-race")
     if os.environ.get("VERIF_COVER"):
         # tools/covreport.sh: which statements of PDOK/texel do the checks execute at all (GOCOVERDIR collects the counters)
-        cmd += ["-cover", "-coverpkg=github.com/pdok/texel/..."]
+        # (the pattern github.com/pdok/texel/... matches nothing for a replaced module: list the packages)
+        pk = subprocess.run(["go", "list", "-tags", "verif", "-deps", "./cmd/drv"], cwd=hdir, env=GOENV, stdout=subprocess.PIPE, text=True).stdout.split()
+        cmd += ["-cover", "-coverpkg=" + ",".join(x for x in pk if x.startswith("github.com/pdok/texel"))]
     cmd.append("./cmd/drv")
     t0 = time.time()
     p = subprocess.run(cmd, cwd=hdir, env=GOENV, stdout=subprocess.PIPE, stderr=subprocess.STDOUT, text=True)
